@@ -1,6 +1,8 @@
 package checks
 
 import (
+	"github.com/volatiletech/authboss/v3"
+	"crypto/sha512"
 	"encoding/base64"
 	"fmt"
 	"github.com/volatiletech/authboss/v3/remember"
@@ -500,6 +502,46 @@ func mintBurst(G, M int) (string, int) {
 				return fmt.Sprintf("the same 32-byte nonce was minted twice (for mint%d and for %s) among %d tokens minted by %d goroutines", other, pid, G*M, G), 0
 			}
 			seen[string(b[len(pid)+1:])] = g
+		}
+	}
+	return "", len(seen)
+}
+
+// tokenBurst calls ONE shared one-time-token generator (as the confirm and recover modules of one
+// instance do) from G goroutines M times each: every token is unique, and the selector / verifier
+// handed out with it are the hashes of that token's own halves.
+func tokenBurst(G, M int) (string, int) {
+	gen := authboss.NewSha512TokenGenerator()
+	type tk struct{ sel, ver, tok string }
+	out := make([][]tk, G)
+	var wg sync.WaitGroup
+	for g := 0; g < G; g++ {
+		wg.Add(1)
+		go func(g int) {
+			defer wg.Done()
+			for i := 0; i < M; i++ {
+				if s, v, t, err := gen.GenerateToken(); err == nil {
+					out[g] = append(out[g], tk{s, v, t})
+				}
+			}
+		}(g)
+	}
+	wg.Wait()
+	seen := map[string]bool{}
+	for g := range out {
+		for _, t := range out[g] {
+			raw, err := base64.URLEncoding.DecodeString(t.tok)
+			if err != nil || len(raw) != 64 {
+				return fmt.Sprintf("a generated token does not decode to 64 bytes: %q", trunc(t.tok, 24)), 0
+			}
+			hs, hv := sha512.Sum512(raw[:32]), sha512.Sum512(raw[32:])
+			if base64.StdEncoding.EncodeToString(hs[:]) != t.sel || base64.StdEncoding.EncodeToString(hv[:]) != t.ver {
+				return fmt.Sprintf("a token was handed out with the selector/verifier of other bytes (%d tokens minted by %d goroutines)", G*M, G), 0
+			}
+			if seen[t.tok] {
+				return fmt.Sprintf("the same one-time token was generated twice among %d tokens minted by %d goroutines", G*M, G), 0
+			}
+			seen[t.tok] = true
 		}
 	}
 	return "", len(seen)
